@@ -4,7 +4,7 @@ package genbank
 
 // C02: feature sequences follow INSDC location semantics for every location.
 //
-// verif:bound C02 location trees: leaves = every span a..b and single base over a parent of 4 (quick) / 6 (thorough) bases, with every combination of partial markers; complement of any leaf; join with 2..3 (quick) / 2..4 (thorough) operands drawn from a reduced operand set (8 leaves and their complements), complement(join(..)), join containing complement(join(..)); at most 3 operators, nesting depth 3
+// verif:bound C02 location trees: leaves = every span a..b and single base over a parent of 4 (quick) / 6 (thorough) bases, with every combination of partial markers; complement of any leaf; join with 2..3 (quick) / 2..4 (thorough) operands drawn from a reduced operand set (8 leaves and their complements), complement(join(..)), join containing complement(join(..)), join nested inside join; at most 3 operators, nesting depth 3
 // verif:bound C02 parent bases symbolic over the 15 IUPAC codes in lower case (as GenBank writes them): one path decides a location tree for every parent sequence
 // verif:bound C02 outside the claim: parents longer than 6 bases (coordinates with several digits are covered by translator-validation vectors only), joins with more than 4 operands, nesting depth 4
 // verif:assume C02 the location tree is enumerated (forked); text -> structure is executed concretely per tree, the solver decides the base-level clauses for all parents
@@ -225,7 +225,17 @@ func c02Operand(L int) *c02Node {
 }
 
 func c02Tree(L int) *c02Node {
-	switch vChoice(4) {
+	switch vChoice(5) {
+	case 4:
+		// a join nested inside a join, with a parenthesised operand in first / last position
+		inner := &c02Node{kind: 3, children: []*c02Node{c02Operand(L), c02Plain(L)}}
+		if vChoice(2) == 1 {
+			inner.children[0], inner.children[1] = inner.children[1], inner.children[0]
+		}
+		if vChoice(2) == 1 {
+			return &c02Node{kind: 3, children: []*c02Node{c02Plain(L), inner}}
+		}
+		return &c02Node{kind: 3, children: []*c02Node{inner, c02Plain(L)}}
 	case 0:
 		return c02Leaf(L)
 	case 1:
